@@ -43,8 +43,10 @@ ZOO = '''"""A deterministic zoo of callables."""
 import decimal
 import enum
 import json
+from uuid import SafeUUID
 
 import c18aux
+from c18aux import Tint
 
 
 class Shade(enum.Enum):
@@ -230,6 +232,22 @@ def aux_deep_fail(flag):
     raise c18aux.Holder.Deep("d") if flag else c18aux.make_local()("l")
 
 
+def tint(flag):
+    return Tint.WARM if flag else Tint.COLD
+
+
+def tints(n):
+    return [Tint.WARM, Tint.COLD, Tint.WARM][: n % 4]
+
+
+def tint_of(shade_):
+    return {"tint": Tint.COLD if shade_ is Shade.DARK else Tint.WARM}
+
+
+def safety(flag):
+    return SafeUUID.safe if flag else SafeUUID.unknown
+
+
 def guard(x):
     """Pass small numbers through.
 
@@ -242,7 +260,15 @@ def guard(x):
 '''
 
 # a second module, NOT under test: exception classes the module under test raises but does not define
-AUX = '''class AuxError(Exception):
+AUX = '''import enum
+
+
+class Tint(enum.Enum):
+    WARM = "w"
+    COLD = "c"
+
+
+class AuxError(Exception):
     pass
 
 
@@ -281,7 +307,81 @@ def _pfail(x):
     raise _PErr(x) if x > 0 else _Loc(x)
 '''
 
-SUTS = {"aux": AUX, "zoo": ZOO, "priv": PRIV}
+# a module that is deterministic BECAUSE it seeds its generators explicitly (falsy seeds included) or relies on the
+# run seed pynguin installs (unseeded generators, the hidden global generator, a module-level generator that is
+# reseeded before every test).  pynguin exports such a module with the seed preamble (`seed=<run seed>`).
+RND = '''"""Callables drawing from explicitly seeded / run-seeded generators."""
+import random
+
+_SHARED = random.Random(0)
+
+
+class Tok:
+    pass
+
+
+class Nil:
+    def __len__(self):
+        return 0
+
+
+def lottery(n):
+    rng = random.Random(0)
+    return [rng.randrange(1000) for _ in range(n % 5 + 1)]
+
+
+def pick(s):
+    rng = random.Random()
+    rng.seed(0)
+    return rng.choice(list(s) + ["-", "+", "*"])
+
+
+def coin():
+    return random.Random(0.0).random()
+
+
+def word():
+    return random.Random("").randrange(10 ** 6)
+
+
+def raw():
+    return random.Random(b"").randrange(10 ** 6)
+
+
+def flag():
+    return random.Random(False).randrange(10 ** 6)
+
+
+def fixed(n):
+    return random.Random(42).randrange(10 ** 6) + n % 7
+
+
+def named():
+    return random.Random("abc").random()
+
+
+def offset():
+    return random.Random().randrange(10 ** 6)
+
+
+def glob0():
+    random.seed(0)
+    return random.randrange(10 ** 6)
+
+
+def roll():
+    return random.randrange(6)
+
+
+def shared():
+    return _SHARED.randrange(1000)
+
+
+def by_obj(empty):
+    return random.Random(Nil() if empty else Tok()).randrange(10 ** 6)
+'''
+
+SUTS = {"aux": AUX, "zoo": ZOO, "priv": PRIV, "rnd": RND}
 
 # name, params (kind per param), declared exceptions, result is a Box?
 FUNCS = [
@@ -295,9 +395,22 @@ FUNCS = [
     ("hidden_sub_fail", [], ["_HiddenSub"]), ("veiled_fail", [], ["_Veiled"]),
     ("aux_fail", ["bool"], ["AuxError", "_AuxHidden"]), ("aux_deep_fail", ["bool"], ["Deep", "LocalAux"]),
     ("guard", ["num"], ["_HiddenError"]),
+    ("tint", ["bool"], []), ("tints", ["small"], []), ("tint_of", ["any"], []), ("safety", ["bool"], []),
 ]
 METHODS = [("put", ["num"], ["AppError"]), ("total", [], []), ("get", ["small"], ["IndexError"]), ("boom", [], []),
            ("hide", [], ["_HiddenError"]), ("cap", [], ["_Cap"])]
+RND_FUNCS = [("lottery", ["small"], []), ("pick", ["str"], []), ("coin", [], []), ("word", [], []), ("raw", [], []),
+             ("flag", [], []), ("fixed", ["small"], []), ("named", [], []), ("offset", [], []), ("glob0", [], []),
+             ("roll", [], []), ("shared", [], []), ("by_obj", ["bool"], [])]
+# run seeds for the module that uses `random` (pynguin passes `seed=<run seed>` to the writer iff the module does)
+RND_SEEDS = [1, 1, 977]
+# probe arguments for the emitted / generation-time `seed` patch: python expression, model abstraction
+SEED_PROBES = [
+    ("None", "none"), ("0", None), ("0.0", None), ("''", None), ("b''", None), ("False", None), ("()", None),
+    ("7", None), ("-3", None), ("2.5", None), ("'abc'", None), ("b'x'", None), ("True", None), ("(1, 2)", None),
+    ("_Tok()", {"idHashed": {"tyModule": "c18probe", "tyName": "_Tok", "truthy": True}}),
+    ("_Nil()", {"idHashed": {"tyModule": "c18probe", "tyName": "_Nil", "truthy": False}}),
+]
 PRIV_FUNCS = [("_hidden", ["num"], []), ("_fail", ["num"], ["LookupError"]), ("_pfail", ["num"], ["_PErr", "_Loc"])]
 # callables that raise a class which is not a builtin: private / nested / function-local classes of the module
 # under test, classes of another module (public, private, nested, function-local), a standard-library class
@@ -350,6 +463,12 @@ def abstract_suite(test_cases, module_name, seed, no_xfail, exc_lists):
     mod = importlib.import_module(module_name)
     public = sorted(n for n in dir(mod) if not n.startswith("_") and n != alias)
     canonical = canonical_module_name(module_name)
+    # `import random` in the module under test makes `random` one of its public names; with a seed preamble the
+    # emitted `from <sut> import …, random, …` re-binds the name the preamble's `import random` bound to the SAME
+    # module object — a no-op the model (one object per binding site) does not need to see
+    import random as _stdlib_random
+    benign = [n for n in public if seed is not None and n == "random" and getattr(mod, n) is _stdlib_random]
+    public = [n for n in public if n not in benign]
     kinds = {ass.FloatAssertion: "float", ass.ObjectAssertion: "object", ass.TypeNameAssertion: "typeName",
              ass.IsInstanceAssertion: "isinstance", ass.CollectionLengthAssertion: "len",
              ass.ExceptionAssertion: "exception"}
@@ -389,7 +508,7 @@ def abstract_suite(test_cases, module_name, seed, no_xfail, exc_lists):
             })
         tests.append(stmts)
     return {"sutName": canonical, "pkgRoot": canonical.split(".")[0], "alias": alias, "publicNames": public,
-            "seed": seed, "noXfail": bool(no_xfail), "tests": tests}
+            "seed": seed, "noXfail": bool(no_xfail), "tests": tests, "benignRebinds": benign}
 
 
 def snapshot_test_case(tc):
@@ -797,7 +916,7 @@ class C18(PropertyCheck):
     prop_id = "C18"
     level = "proof"
     prop_modules = ["PynguinModel.Props.C18"]
-    extra_modules = ["PynguinModel.Model.ExportImports"]
+    extra_modules = ["PynguinModel.Model.ExportImports", "PynguinModel.Model.SeedPatch"]
     driver = "Driver/C18.lean"
     n_quick = 20
     n_thorough = 700
@@ -835,6 +954,8 @@ class C18(PropertyCheck):
         self._real_io = {}
         self.real_runs = 0
         self._mods = {}
+        self._gen_patch = None   # the function generator._patch_random installed (kept: it owns the tracked set)
+        self._gen_probe = {}
 
     # -- scratch -------------------------------------------------------------------------------
     def _scratch(self) -> Path:
@@ -868,7 +989,8 @@ class C18(PropertyCheck):
         return rng.choice(["[]", "[1, 2, 2]", "[3]", "['a', 1]"])
 
     def gen_case(self, rng):
-        mod = "priv" if rng.random() < 0.1 else "zoo"
+        r0 = rng.random()
+        mod = "priv" if r0 < 0.1 else "rnd" if r0 < 0.3 else "zoo"
         alias = f"c18{mod}_"
         tests = []
         for _ in range(rng.choice([1, 1, 2, 2, 3, 4])):
@@ -891,9 +1013,9 @@ class C18(PropertyCheck):
                         src = f"{rng.choice(boxes)}.{name}({', '.join(arg(k) for k in params)})"
                         fn = ["Box", name]
                     else:
-                        pool = FUNCS if mod == "zoo" else PRIV_FUNCS
+                        pool = {"zoo": FUNCS, "priv": PRIV_FUNCS, "rnd": RND_FUNCS}[mod]
                         name, params, declared = rng.choice(
-                            [f for f in pool if f[0] in CUSTOM_RAISERS] if custom else pool)
+                            [f for f in pool if f[0] in CUSTOM_RAISERS] if custom and mod != "rnd" else pool)
                         prefix = "" if (mod == "zoo" and rng.random() < 0.1) else alias + "."
                         src = f"{prefix}{name}({', '.join(arg(k) for k in params)})"
                         fn = [name]
@@ -909,7 +1031,10 @@ class C18(PropertyCheck):
                     if fn in (["mk_box"], ["Box"]):
                         boxes.append(var)
             tests.append(stmts)
-        return {"mod": mod, "seed": rng.choice([None, None, None, 1, 1]), "no_xfail": rng.random() < 0.4,
+        seed = rng.choice([None, None, None, 1, 1])
+        if mod == "rnd":            # a module using `random` is always exported with the (non-zero) run seed
+            seed = rng.choice(RND_SEEDS)
+        return {"mod": mod, "seed": seed, "no_xfail": rng.random() < 0.4,
                 "black": rng.random() < 0.5, "assert_mode": rng.choice(["all", "all", "half", "none"]),
                 "salt": rng.randint(0, 10 ** 6), "tests": tests}
 
@@ -967,10 +1092,14 @@ class C18(PropertyCheck):
         mod = self._module(case["mod"])
         module_name = mod.__name__
         alias = module_name + "_"
-        arng = _random.Random(case["salt"])
+        arng = self._arng      # created by `_impl` OUTSIDE the generation-time patch window
         suite = tsc.TestSuiteChromosome()
         for stmts in case["tests"]:
             tc = tcm.TestCase()
+            if case["mod"] == "rnd":
+                # what the executor does before every test-case execution (real code; inside the patch window)
+                from pynguin.testcase.execution_isolation import _make_deterministic
+                _make_deterministic()
             ns = {"__builtins__": builtins, "pytest": pytest}
             ns.update(vars(mod))
             ns[alias] = mod
@@ -993,6 +1122,105 @@ class C18(PropertyCheck):
                 tc.add_statement(st)
             suite.add_test_case_chromosome(tcc.TestCaseChromosome(tc))
         return suite, module_name
+
+    # -- `random` the way a generation run sees it ------------------------------------------------
+    def _generation_time_random(self, case):
+        """For the module that uses `random`: install pynguin's REAL generation-time patch
+        (`generator._patch_random`, run seed = the case's seed) for the duration of suite building and export —
+        a generation run has it installed from before the import of the module under test until the end — and
+        restore the interpreter's `random` afterwards (the harness's own generators are never touched: they
+        are created outside the window, so the patch does not track them)."""
+        import contextlib
+        import random as _random
+
+        @contextlib.contextmanager
+        def window():
+            import pynguin.configuration as config
+            import pynguin.generator as gen
+            real, state, old = _random.Random.seed, _random.getstate(), config.configuration.seeding.seed
+            config.configuration.seeding.seed = case["seed"]
+            if self._gen_patch is None:
+                gen._patch_random()
+                self._gen_patch = _random.Random.seed
+                assert getattr(self._gen_patch, "__pynguin_patched__", False)
+            else:
+                _random.Random.seed = self._gen_patch      # the same closure: keeps its tracked instances
+            try:
+                yield
+            finally:
+                _random.Random.seed = real
+                _random.setstate(state)
+                config.configuration.seeding.seed = old
+        return window() if case["mod"] == "rnd" else contextlib.nullcontext()
+
+    @staticmethod
+    def _probe_namespace():
+        tok = type("_Tok", (), {"__module__": "c18probe"})
+        nil = type("_Nil", (), {"__module__": "c18probe", "__len__": lambda self: 0})
+        return {"_Tok": tok, "_Nil": nil}
+
+    @staticmethod
+    def _eff(x):
+        # what reached the original `seed`: a value (by repr) or the '<module>.<name>' string of an id-hashed type
+        if isinstance(x, str) and x.startswith("c18probe."):
+            return {"ty": x}
+        return {"val": repr(x)}
+
+    def _probe_emitted_seed(self, text):
+        """Run the `_pynguin_deterministic_seed` function of the emitted file on the probe arguments with a
+        recording stand-in for the original `random.Random.seed`."""
+        fn = next((n for n in ast.walk(ast.parse(text))
+                   if isinstance(n, ast.FunctionDef) and n.name == "_pynguin_deterministic_seed"), None)
+        if fn is None:
+            return None
+        got = []
+        ns = {"_pynguin_orig_seed": lambda self, x=None: got.append(x), "_pynguin_tracked": set()}
+        exec(compile(ast.Module(body=[fn], type_ignores=[]), "<emitted-seed-patch>", "exec"), ns)   # noqa: S102
+        out = []
+        for expr, _ in SEED_PROBES:
+            got.clear()
+            try:
+                ns["_pynguin_deterministic_seed"](object(), eval(expr, self._probe_namespace()))   # noqa: S307
+                out.append(self._eff(got[0]) if len(got) == 1 else {"calls": len(got)})
+            except Exception as e:   # noqa: BLE001 - reported as the probe's outcome
+                out.append({"err": type(e).__name__})
+        return out
+
+    def _probe_generation_seed(self, seed):
+        """The same probes through the function `generator._patch_random` installs (run seed from the config)."""
+        if seed in self._gen_probe:
+            return self._gen_probe[seed]
+        import random as _random
+        import pynguin.configuration as config
+        import pynguin.generator as gen
+        got = []
+        real, old = _random.Random.seed, config.configuration.seeding.seed
+
+        def recorder(self, x=None):
+            got.append(x)
+        try:
+            _random.Random.seed = recorder          # becomes the patch's `orig_random_seed`
+            gen._patch_random()
+            patched = _random.Random.seed
+        finally:
+            _random.Random.seed = real
+        if patched is recorder:
+            raise RuntimeError("generator._patch_random did not install a patch")
+        holder = type("_Self", (), {})
+        out = []
+        config.configuration.seeding.seed = seed
+        try:
+            for expr, _ in SEED_PROBES:
+                got.clear()
+                try:
+                    patched(holder(), eval(expr, self._probe_namespace()))   # noqa: S307
+                    out.append(self._eff(got[0]) if len(got) == 1 else {"calls": len(got)})
+                except Exception as e:   # noqa: BLE001
+                    out.append({"err": type(e).__name__})
+        finally:
+            config.configuration.seeding.seed = old
+        self._gen_probe[seed] = out
+        return out
 
     # -- the real thing --------------------------------------------------------------------------
     def _timed(self, key, t0):
@@ -1019,15 +1247,24 @@ class C18(PropertyCheck):
         self.count("mod:" + case["mod"])
         self.count(f"seed:{case['seed']}")
         self.count(f"no_xfail:{case['no_xfail']}")
-        suite, module_name = self._build_suite(case)
         root = self._scratch() / "batch"
         out_dir = root / f"k{cid}"
         writer = export.TestSuiteWriter(no_xfail=case["no_xfail"])
-        path, abstraction = observed_write(writer, suite, module_name, out_dir,
-                                           project_path=str(self._scratch() / "sut"),
-                                           format_with_black=case["black"], seed=case["seed"])
+        self._arng = __import__("random").Random(case["salt"])
+        with self._generation_time_random(case):
+            suite, module_name = self._build_suite(case)
+            path, abstraction = observed_write(writer, suite, module_name, out_dir,
+                                               project_path=str(self._scratch() / "sut"),
+                                               format_with_black=case["black"], seed=case["seed"])
         text = Path(path).read_text()
-        io = {"cid": cid, "file": text, "parsed": parse_emitted(text), "pytest": None, "collect_error": None}
+        io = {"cid": cid, "file": text, "parsed": parse_emitted(text), "pytest": None, "collect_error": None,
+              "seed_eff": None}
+        if case["seed"] is not None:
+            io["seed_eff"] = {"export": self._probe_emitted_seed(text), "gen": self._probe_generation_seed(case["seed"])}
+            abstraction["seedProbes"] = [m if m is not None else
+                                         {"value": {"v": {"repr": repr(eval(e)), "truthy": bool(eval(e))}}}  # noqa: S307
+                                         for e, m in SEED_PROBES]
+            self.count("seed-preamble-probed")
         self._abs[cid] = abstraction
         case["_cid"] = cid
         self._pending.append((case["seed"], f"k{cid}", Path(path).name, io))
@@ -1084,19 +1321,31 @@ class C18(PropertyCheck):
         p = io["parsed"]
         if "syntax_error" in p:
             return False
-        if mo["needs_pytest"] != p["needs_pytest"] or mo["names"] != p["names"]:
+        ab = (self._real.get(case["real_run"], (None, {}))[1] if "real_run" in case
+              else self._abs.get(case.get("_cid"), {}))
+        names = list(p["names"])
+        for n in ab.get("benignRebinds", []):      # drop the re-binding (second occurrence) of `random`
+            idx = [i for i, x in enumerate(names) if x == n]
+            if len(idx) != 2:
+                return False
+            del names[idx[1]]
+        if mo["needs_pytest"] != p["needs_pytest"] or mo["names"] != names:
             return False
         if [[f["xfail"], f["items"]] for f in mo["fns"]] != \
                 [[f["xfail"], f["items"]] for f in p["fns"] if f["name"] != "test_empty"]:
             return False
         # names level: which class every `pytest.raises(...)` names and whether the file binds that name;
         # the model's verdict "every global name resolves" against the static reading of the emitted file
-        mod_names = set(p["names"])
+        mod_names = set(names)
         got_raises = [[[it[1], it[1] in mod_names or it[1] in BUILTIN_NAMES] for it in f["items"] if it[0] == "raises"]
                       for f in p["fns"] if f["name"] != "test_empty"]
         if [[[c[0], c[2]] for c in f] for f in mo["raises_classes"]] != got_raises:
             return False
         if mo["names_ok"] != (not [u for u in p["unbound"] if not u[1].startswith("var_")]):
+            return False
+        # seed preamble: what the emitted `seed` patch and the generation-time patch hand the original `seed`
+        # for every probe argument (None, falsy and truthy values, identity-hashed objects)
+        if io.get("seed_eff") is not None and io["seed_eff"] != mo.get("seed_eff"):
             return False
         if mo["report"] is None or not mo["imports_ok"]:
             return io["collect_error"] is not None
